@@ -41,6 +41,70 @@ type Dispatch struct {
 	mu      sync.Mutex
 	streams map[string][]*Stream
 	closed  bool
+	gate    *Gate
+}
+
+// Gate makes Register block for the vchannels of held collections (a slow MQ), until they are released.
+type Gate struct {
+	mu      sync.Mutex
+	held    map[int64]chan struct{} // collection id -> closed on release
+	Waiting int                     // registrations currently blocked
+}
+
+func NewGate() *Gate { return &Gate{held: map[int64]chan struct{}{}} }
+
+func (g *Gate) Hold(coll int64) {
+	g.mu.Lock()
+	defer g.mu.Unlock()
+	if _, ok := g.held[coll]; !ok {
+		g.held[coll] = make(chan struct{})
+	}
+}
+
+func (g *Gate) Release(coll int64) {
+	g.mu.Lock()
+	defer g.mu.Unlock()
+	if c, ok := g.held[coll]; ok {
+		close(c)
+		delete(g.held, coll)
+	}
+}
+
+func (g *Gate) Held(coll int64) bool {
+	g.mu.Lock()
+	defer g.mu.Unlock()
+	_, ok := g.held[coll]
+	return ok
+}
+
+func (g *Gate) Blocked() int {
+	g.mu.Lock()
+	defer g.mu.Unlock()
+	return g.Waiting
+}
+
+func (g *Gate) wait(vchannel string) {
+	i := strings.LastIndex(vchannel, "_")
+	j := strings.LastIndex(vchannel, "v")
+	if i < 0 || j < i {
+		return
+	}
+	var coll int64
+	if _, err := fmt.Sscanf(vchannel[i+1:j], "%d", &coll); err != nil {
+		return
+	}
+	g.mu.Lock()
+	c, ok := g.held[coll]
+	if ok {
+		g.Waiting++
+	}
+	g.mu.Unlock()
+	if ok {
+		<-c
+		g.mu.Lock()
+		g.Waiting--
+		g.mu.Unlock()
+	}
 }
 
 var _ msgdispatcher.Client = (*Dispatch)(nil)
@@ -48,6 +112,9 @@ var _ msgdispatcher.Client = (*Dispatch)(nil)
 func NewDispatch() *Dispatch { return &Dispatch{streams: map[string][]*Stream{}} }
 
 func (d *Dispatch) Register(ctx context.Context, cfg *msgdispatcher.StreamConfig) (<-chan *msgstream.MsgPack, error) {
+	if d.gate != nil {
+		d.gate.wait(cfg.VChannel)
+	}
 	d.mu.Lock()
 	defer d.mu.Unlock()
 	st := &Stream{VChannel: cfg.VChannel, Ch: make(chan *msgstream.MsgPack)}
